@@ -74,6 +74,13 @@ impl Drop for Gated {
 /// liveness timeouts seen so far in this process; once a handful of histories have timed out the
 /// generators stop (the violation is established; thousands of further 400 ms waits add nothing)
 static TIMEOUTS: AtomicU64 = AtomicU64::new(0);
+/// `--shard k/n`: this process runs only the cases whose running index is k modulo n
+static SHARD_K: AtomicU64 = AtomicU64::new(0);
+static SHARD_N: AtomicU64 = AtomicU64::new(1);
+
+fn mine(count: u64) -> bool {
+    count % SHARD_N.load(Ordering::Relaxed) == SHARD_K.load(Ordering::Relaxed)
+}
 
 fn too_many_timeouts() -> bool {
     TIMEOUTS.load(Ordering::Relaxed) > 15
@@ -629,7 +636,11 @@ fn emit_case(out: &mut impl Write, cap: Option<usize>, handler: bool, ops: &[Str
     if too_many_timeouts() {
         return;
     }
-    let hmode: u8 = if !handler { 0 } else { 1 + (*count % 2) as u8 };
+    if !mine(*count) {
+        *count += 1;
+        return;
+    }
+    let hmode: u8 = if !handler { 0 } else { 1 + ((*count / 2) % 2) as u8 };
     let (all, obs) = run_queue(cap, hmode, ops);
     writeln!(
         out,
@@ -800,10 +811,19 @@ fn main() {
         return;
     }
     let tier = arg_value(&args, "--tier").unwrap_or("quick".into());
+    if let Some(sh) = arg_value(&args, "--shard") {
+        let mut it = sh.split('/');
+        SHARD_K.store(it.next().and_then(|x| x.parse().ok()).unwrap_or(0), Ordering::Relaxed);
+        SHARD_N.store(it.next().and_then(|x| x.parse().ok()).unwrap_or(1).max(1), Ordering::Relaxed);
+    }
+    let shard0 = SHARD_K.load(Ordering::Relaxed) == 0;
     let mut rng = Rng::new(env_seed());
     let mut count = 0u64;
     backpressure(&mut out, &mut count);
     for ops in ["e0:6130,e0:6131,k,s0,d0", "c0,e1:6130,p,e0:6131,x3,d0,d1", "d0", "e0:6130,d0,k"] {
+        if !shard0 {
+            break;
+        }
         if let Some(l) = run_line(&format!("queue0 1 {}", ops)) {
             writeln!(out, "{}", l).unwrap();
             count += 1;
@@ -815,12 +835,18 @@ fn main() {
         vec![(1, 4, 1, 3000), (2, 4, 2, 2000), (3, 8, 1, 1000), (8, 16, 2, 500)]
     };
     for (cap, t, per, rounds) in bursts {
+        if !shard0 {
+            break;
+        }
         if let Some(l) = run_line(&format!("qburst {} {} {} {}", cap, t, per, rounds)) {
             writeln!(out, "{}", l).unwrap();
             count += 1;
         }
     }
     for cap in [1usize, 4] {
+        if !shard0 {
+            break;
+        }
         if let Some(l) = run_line(&format!("qlatency {}", cap)) {
             writeln!(out, "{}", l).unwrap();
             count += 1;
@@ -831,15 +857,22 @@ fn main() {
         random_cases(&mut out, &mut rng, 1500, 60, &mut count);
         random_cases(&mut out, &mut rng, 40, 400, &mut count);
         for (cap, t, n) in [(None, 4usize, 400usize), (Some(8), 8, 300), (Some(1), 3, 200), (None, 16, 100), (Some(1), 16, 2000), (Some(2), 8, 2000)] {
+            if !shard0 {
+                break;
+            }
             let r = run_stress(cap, t, n);
             writeln!(out, "qstress {} {} {} => {}", cap.map(|c| c.to_string()).unwrap_or("u".into()), t, n, r).unwrap();
             count += 1;
         }
     } else {
-        exhaustive(&mut out, &[Some(1), Some(2), Some(3), None], 6, &mut count);
+        exhaustive(&mut out, &[Some(2), Some(3)], 5, &mut count);
+        exhaustive(&mut out, &[Some(1), None], 6, &mut count);
         random_cases(&mut out, &mut rng, 40000, 80, &mut count);
         random_cases(&mut out, &mut rng, 1000, 400, &mut count);
         for i in 0..200usize {
+            if !shard0 {
+                break;
+            }
             let cap = if i % 3 == 0 { None } else { Some(1 + i % 9) };
             let (t, n) = (2 + i % 15, 100 + (i * 37) % 900);
             let r = run_stress(cap, t, n);
